@@ -3137,7 +3137,11 @@ class ItemsDataset(Dataset):
 
     def __getitem__(self, item):
         if isinstance(item, str):
-            return item, self.input_dataset[self.keys().index(item)]
+            try:
+                index = self.keys().index(item)
+            except ValueError:
+                raise KeyErrorCloseMatches(item, self.keys()) from None
+            return item, self.input_dataset[index]
         elif isinstance(item, numbers.Integral):
             return self.keys()[item], self.input_dataset[item]
         else:
